@@ -146,8 +146,7 @@ Proof.
         change (ex_rc (snd (item K (fst r) i))) with (e_rc (snd (item K (fst r) i))) in Hh.
         rewrite has_ext_rc' in Hh by (auto using item_lt).
         rewrite rc_lk, <- Ek, ListFacts.rc_involutive by exact Ww. apply item_window; auto using comp_lt4.
-  - assert (Lk : forall v, In v (kmers (S K) v) \/ True) by (intros; now right).
-    intros [[P Hv]|[Hs Hv]].
+  - intros [[P Hv]|[Hs Hv]].
     + apply in_wins in Hv as [r [Hr Hv]]. pose proof (read_wf r Hr) as W.
       assert (Lkk : length k = K).
       { apply kmers_in in Hv as [q [Hq Ev]]. apply (f_equal (@length N)) in Ev. rewrite lk_length in Ev.
